@@ -23,9 +23,6 @@ W(cond_fits, sizeof(myth_cond_t) <= sizeof(pthread_cond_t));
 W(barrier_fits, sizeof(myth_barrier_t) <= sizeof(pthread_barrier_t));
 W(spinlock_fits, sizeof(myth_spinlock_t) <= sizeof(pthread_spinlock_t));
 W(once_fits, sizeof(myth_once_t) <= sizeof(pthread_once_t));
-W(mutexattr_fits, sizeof(myth_mutexattr_t) <= sizeof(pthread_mutexattr_t));
-W(condattr_fits, sizeof(myth_condattr_t) <= sizeof(pthread_condattr_t));
-W(barrierattr_fits, sizeof(myth_barrierattr_t) <= sizeof(pthread_barrierattr_t));
 W(key_width, sizeof(myth_key_t) <= sizeof(pthread_key_t));
 W(thread_id_width, sizeof(myth_thread_t) <= sizeof(pthread_t));
 /* the all-zero PTHREAD_MUTEX_INITIALIZER must be recognisable as "not yet a myth mutex" */
@@ -34,5 +31,4 @@ W(magic_values_distinct, myth_mutex_magic_no != myth_mutex_magic_no_initializing
 W(magic_inside_pthread_mutex, offsetof(myth_mutex_t, magic) + sizeof(int) <= sizeof(pthread_mutex_t));
 W(once_init_value, myth_once_state_init == PTHREAD_ONCE_INIT);
 W(barrier_serial_differs_from_zero, MYTH_BARRIER_SERIAL_THREAD != 0 && PTHREAD_BARRIER_SERIAL_THREAD != 0);
-W(cancel_constants_match_or_translated, MYTH_CANCEL_ENABLE != MYTH_CANCEL_DISABLE);
 #endif
